@@ -402,13 +402,21 @@ class Worker(threading.Thread):
             except ConnectionError:
                 pass
             return
-        if kind == "brn":           # channel.recv(block=False): no hub access at all in the code as it is
+        if kind == "brn":           # channel.recv(block=False): one round of non-blocking receives (after F48)
             keys = [(node_name(self.tid), node_name(r), sid) for r in op[3]]
             queued = sum(len(hub_in_use()._messages.get(k, ())) for k in keys)
+            self.cur_key = key_json(keys[0])
+            self.cur_nonblock = True
             try:
                 name, msg = self.chans[sid].recv(block=False)
+                kj = key_json((node_name(self.tid), name, sid))
+                s.delivery.setdefault(tuple(kj), []).append(("pop", decode(msg)))
+                self.res.append(["gotStr", kj, decode(msg)])
                 s.brn.append({"thread": self.tid, "queued": queued, "got": decode(msg)})
-            except RuntimeError:
+            except RuntimeError as e:
+                if "No message broadcasted" not in str(e):
+                    raise
+                self.res.append(["empty", key_json(keys[-1])])      # reported after the last remote was polled
                 s.brn.append({"thread": self.tid, "queued": queued, "got": None})
             return
         if kind == "br":            # channel.recv(block=True): poll the remotes
@@ -681,6 +689,8 @@ def ops_json(prog):
             out.append({"bs": [op[2], op[3]] + list(op[4])})
         elif k == "br":
             out.append({"br": [op[2], int(op[3])] + list(op[4])})
+        elif k == "brn":
+            out.append({"br": [op[2], 0] + list(op[3])})
     return out
 
 
@@ -827,7 +837,8 @@ def oracle(case, settle_steps):
     for b in case.get("brn", []):
         if b["queued"] > 0 and b["got"] is None:
             fails.append({"what": "BroadcastChannel.recv(block=False) reported emptiness although %d message(s) were "
-                                  "queued for thread %d" % (b["queued"], b["thread"]), "key": None, "kf": "F29"})
+                                  "queued for thread %d when the call started" % (b["queued"], b["thread"]),
+                          "key": None})
     for u in case.get("unexpected", []):
         fails.append({"what": "thread %d: %s raised %s inside the hub" % (u["thread"], u["op"], u["error"]), "key": None})
     # every message goes to the incarnation of the receiving key that is open while it is sent
@@ -1431,12 +1442,16 @@ def socket_layer_scenarios():
              [("c", 0, 0, 0), ("d", 0, 0, 0)],
              [("c", 0, 0, 1)]]
     bcast2 = [[("bc", -1, 0, [1]), ("bs", -1, 0, 3, [1]), ("br", -1, 0, 1, [1])],
-              [("bc", -1, 0, [0]), ("br", -1, 0, 1, [0]), ("bs", -1, 0, 4, [0])]]
-    return {"mixed": mixed, "bcast3": bcast3, "bgone": bgone, "bcast2": bcast2}
+              [("bc", -1, 0, [0]), ("brn", -1, 0, [0]), ("br", -1, 0, 1, [0]), ("bs", -1, 0, 4, [0])]]
+    # non-blocking broadcast receives: one round over the remotes, the second remote may be the one with a message
+    bnb3 = [[("bc", -1, 0, [1, 2]), ("brn", -1, 0, [1, 2]), ("brn", -1, 0, [1, 2]), ("brn", -1, 0, [1, 2])],
+            [("bc", -1, 0, [0, 2]), ("bs", -1, 0, 5, [0, 2])],
+            [("bc", -1, 0, [0, 1]), ("bs", -1, 0, 6, [0, 1]), ("brn", -1, 0, [0, 1])]]
+    return {"mixed": mixed, "bcast3": bcast3, "bgone": bgone, "bcast2": bcast2, "bnb3": bnb3}
 
 
-def f29_case():
-    """F29: the non-blocking broadcast receive never looks at a socket (`while block:` is skipped)"""
+def f48_case():
+    """F48 (fixed): the non-blocking broadcast receive used to skip its polling loop (`while block:`)"""
     return [[("bc", -1, 0, [1]), ("bs", -1, 0, 3, [1]), ("bs", -1, 0, 4, [1])],
             [("bc", -1, 0, [0]), ("r", 0, 0, 1, 0), ("brn", -1, 0, [0])]]
 
